@@ -31,6 +31,9 @@
 (*             "h2c" (HTTP/2 without TLS, and HTTP/1.1)                    *)
 (*   http2     -http2 (default true)     h2c   -h2c                        *)
 (*   hosthdr   -header "Host: virtual.example": the request's host          *)
+(*   lookup    the targets name the server as localhost (looked up by the     *)
+(*             caching dialer) and -dns-ttl=1us: the ttl is how long an      *)
+(*             answer is kept, not how long a lookup may take                *)
 (*   head      entry 3 is a HEAD request (the response announces its five     *)
 (*             bytes and carries none)                                      *)
 (*   stall     -output is a named pipe whose reader does not read for the   *)
@@ -66,13 +69,14 @@ Min(a, b) == IF a <= b THEN a ELSE b
 Base == [server |-> "plain", trust |-> "na", format |-> "http", lazy |-> TRUE, bad |-> "none", rate |-> 0, maxw |-> 1, workers |-> 1,
          name |-> "", hdr |-> FALSE, body |-> FALSE, chunked |-> FALSE, maxbody |-> -1, redirects |-> "default", keepalive |-> TRUE,
          timeout |-> "default", connectto |-> FALSE, laddr |-> FALSE, prom |-> FALSE, maxconn |-> 0, hosts |-> 1,
-         http2 |-> TRUE, h2c |-> FALSE, hosthdr |-> FALSE, stall |-> FALSE, head |-> FALSE]
+         http2 |-> TRUE, h2c |-> FALSE, hosthdr |-> FALSE, stall |-> FALSE, head |-> FALSE, lookup |-> FALSE]
 
 Valid(c) ==
     /\ c.server \in {"plain", "tls", "unix", "tls2", "h2c"} /\ c.format \in {"http", "json"} /\ c.bad \in {"none", "late"}
     /\ (c.server \in {"tls", "tls2"}) = (c.trust # "na")
     /\ (c.h2c => c.server = "h2c") /\ c.trust \in {"na", "insecure", "rootcert", "none"}
     /\ (c.stall => c = [Base EXCEPT !.stall = TRUE, !.lazy = FALSE, !.rate = 200, !.maxw = 64])
+    /\ (c.lookup => c.server = "plain" /\ ~c.connectto /\ ~c.laddr /\ ~c.hosthdr)
     /\ (c.head => ~c.body)           \* (a HEAD request is sent without a body here)
     /\ c.rate \in {0, 2, 50, 200}          \* (2 per second: the duration is shorter than one pacing interval) /\ c.maxw \in {1, 3, 64} /\ (c.maxw = 64 => c.stall) /\ c.workers \in {1, 3}
     /\ c.maxbody \in {-1, 0, 2, 9} /\ c.redirects \in {"default", "nofollow"} /\ c.timeout \in {"default", "short"}
@@ -106,6 +110,7 @@ Single ==
           [Base EXCEPT !.server = "h2c", !.h2c = TRUE, !.body = TRUE, !.hdr = TRUE, !.maxbody = 2],
           [Base EXCEPT !.lazy = FALSE, !.rate = 2], [Base EXCEPT !.lazy = FALSE, !.rate = 2, !.maxw = 3, !.workers = 3],
           [Base EXCEPT !.stall = TRUE, !.lazy = FALSE, !.rate = 200, !.maxw = 64],
+          [Base EXCEPT !.lookup = TRUE], [Base EXCEPT !.lookup = TRUE, !.lazy = FALSE, !.rate = 50, !.maxw = 3],
           [Base EXCEPT !.head = TRUE], [Base EXCEPT !.head = TRUE, !.maxbody = 2], [Base EXCEPT !.head = TRUE, !.maxbody = 0, !.server = "tls", !.trust = "insecure"],
           [Base EXCEPT !.hosthdr = TRUE], [Base EXCEPT !.hosthdr = TRUE, !.hdr = TRUE, !.format = "json"], [Base EXCEPT !.hosthdr = TRUE, !.connectto = TRUE],
           [Base EXCEPT !.maxconn = 1], [Base EXCEPT !.maxconn = 1, !.maxw = 3], [Base EXCEPT !.connectto = TRUE, !.hosts = 2],
@@ -134,7 +139,7 @@ RespSize(c, i) == IF SlowList(c) THEN 4
                          [] i = 7 -> (IF c.prom THEN 4 ELSE 2)
 StatusOf(c, i) == IF SlowList(c) THEN 200
                   ELSE IF i = 5 THEN 404 ELSE IF i = 4 /\ c.redirects = "nofollow" THEN 302 ELSE 200
-HostOf(c, i) == IF ~c.connectto THEN "127.0.0.1" ELSE IF c.hosts = 2 /\ i % 2 = 0 THEN "E2Eb.invalid" ELSE "E2E.invalid"
+HostOf(c, i) == IF c.lookup THEN "localhost" ELSE IF ~c.connectto THEN "127.0.0.1" ELSE IF c.hosts = 2 /\ i % 2 = 0 THEN "E2Eb.invalid" ELSE "E2E.invalid"
 \* what the attack can have in flight at once: the workers, and per host the connections
 Capacity(c) == IF c.maxconn = 0 \/ c.h2c \/ (c.server = "tls2" /\ c.http2) THEN c.maxw ELSE Min(c.maxw, c.hosts * c.maxconn)   \* HTTP/2 multiplexes
 TimesOut(c, i) == ~SlowList(c) /\ i = 6 /\ c.timeout = "short"
